@@ -15,6 +15,8 @@ pub enum FaultSpec {
     Vis(u32, bool),
     /// F-VIS at every callback, entry and exit (one execution per position), plus F-SINK at every write of every error
     VisEvery,
+    /// F-SEED at seed k, before (false) / after (true) the seed ran
+    Seed(u32, bool),
 }
 
 /// A document with the harness's own knowledge about it (workload B).
@@ -143,6 +145,7 @@ impl RunOut {
         self.violations.push(Violation { oracle: oracle.to_string(), signature, detail });
     }
     pub fn absorb(&mut self, cx: &crate::seam::Ctx) {
+        crate::runner::heartbeat();
         self.events += cx.nev.get() as u64;
         self.shape = crate::rng::mix(&[self.shape, cx.shape.get()]);
         self.digest = crate::rng::mix(&[self.digest, cx.digest.get()]);
